@@ -357,6 +357,7 @@ static int getTypeId(Type *ty) {
   case TY_SHORT:
     return ty->is_unsigned ? U16 : I16;
   case TY_INT:
+  case TY_ENUM:
     return ty->is_unsigned ? U32 : I32;
   case TY_LONG:
     return ty->is_unsigned ? U64 : I64;
